@@ -16,6 +16,9 @@ REPO = os.environ.get("REPO", "/repo")
 if REPO not in sys.path:
     sys.path.insert(0, REPO)
 os.environ.setdefault("MPLBACKEND", "Agg")
+# small matrices only: multi-threaded BLAS is slower here and collapses under machine load
+for _v in ("OMP_NUM_THREADS", "OPENBLAS_NUM_THREADS", "MKL_NUM_THREADS"):
+    os.environ.setdefault(_v, "1")
 
 import warnings  # noqa: E402
 
